@@ -80,6 +80,9 @@ pub struct Shadow {
     /// `is_dead` is specified relative to that moment, not to later mutations inside the callback
     pub fin_reach: HashSet<u32>,
     pub fin_mutated: bool,
+    /// objects revived by `resurrect` in the running cycle (cleared when the cycle ends): they and
+    /// everything strongly reachable from them must not be destructed by this cycle's sweep (C07)
+    pub resurrected: Vec<u32>,
 }
 
 impl Shadow {
@@ -105,6 +108,28 @@ impl Shadow {
                 stack.push(*t);
             }
         }
+        while let Some(i) = stack.pop() {
+            if !seen.insert(i) {
+                continue;
+            }
+            if let Some(o) = self.objs.get(i as usize) {
+                if o.dropped == 0 {
+                    for s in &o.slots {
+                        if let Some(SP::S(t)) = s {
+                            stack.push(*t);
+                        }
+                    }
+                }
+            }
+        }
+        seen
+    }
+
+    /// Objects strongly reachable from the given objects (through undestructed objects), the
+    /// starting objects included.
+    pub fn closure_from(&self, starts: &[u32]) -> HashSet<u32> {
+        let mut seen = HashSet::new();
+        let mut stack: Vec<u32> = starts.to_vec();
         while let Some(i) = stack.pop() {
             if !seen.insert(i) {
                 continue;
@@ -240,6 +265,16 @@ impl Shadow {
             v("C20", format!("{} destructor/release events of another arena during `{op}`", obs.foreign_events));
         }
 
+        // ---- C07: what a resurrection protects for the rest of its cycle ----
+        // (only when this op's events can only come from the sweep of that very cycle: at most one
+        // sweep ran in the call)
+        let sweeps_in_call = obs.steps.bytes().filter(|c| *c == b'S').count() + usize::from(obs.phase_before == CPhase::Sweeping);
+        let protected: HashSet<u32> = if !self.resurrected.is_empty() && sweeps_in_call <= 1 && matches!(op, Op::Collect { .. }) {
+            self.closure_from(&self.resurrected)
+        } else {
+            HashSet::new()
+        };
+
         // ---- events: C01, C03, C04 ----
         let is_drop_arena = matches!(op, Op::DropArena);
         for (is_drop, id) in &obs.events {
@@ -267,6 +302,9 @@ impl Shadow {
             if !is_drop_arena && acc_before.contains(id) {
                 let what = if *is_drop { "destructed" } else { "released" };
                 v("C01", format!("object {id} {what} during `{op}` while strongly reachable"));
+            }
+            if *is_drop && protected.contains(id) {
+                v("C07", format!("object {id} was destructed by the sweep of the cycle in which it (or an object it is strongly reachable from) was resurrected"));
             }
             if in_cb || matches!(op, Op::Enter(_) | Op::Leave { .. }) {
                 v("C03", format!("object {id} destructed/released inside a callback (`{op}`)"));
@@ -406,6 +444,14 @@ impl Shadow {
                         }
                     }
                     _ => {}
+                }
+                // collection work pays debt, it never creates any: every credit counter only grows
+                // during a call, the debits do not change, and the debt carried over a finished cycle
+                // is what was left of it (non-negative work factors)
+                let nonneg = self.pacing.map(|p| [p.sleep, p.mark, p.trace, p.keep, p.drop, p.free].iter().all(|d| d.num >= 0)).unwrap_or(true);
+                if nonneg && obs.debt_after > obs.debt_before + 1e-9 * obs.debt_before.abs().max(1.0) {
+                    v("C09", format!("{} increased allocation_debt {} -> {} (phase {} -> {}, steps={})", method.name(), obs.debt_before, obs.debt_after,
+                        obs.phase_before.name(), obs.phase_after.name(), obs.steps));
                 }
                 // asleep with no debt: no progress
                 if obs.phase_before == CPhase::Sleeping && obs.debt_before == 0.0 && matches!(method, Method::CollectDebt | Method::CycleDebt | Method::MarkDebt) {
@@ -603,6 +649,7 @@ impl Shadow {
                 }
             }
             Op::Resurrect(p) => {
+                let was_mutated = self.mutated_since_wake;
                 self.mutated_since_wake = true;
                 if let SP::W(t) = p {
                     let o = &self.objs[*t as usize];
@@ -613,8 +660,23 @@ impl Shadow {
                         self.push(SP::S(*t));
                     }
                 }
-                if obs.ret != "none" && obs.phase_after != CPhase::Marking && obs.phase_before == CPhase::Marked {
-                    // reviving a *dead* object must report Marking; a live one changes nothing
+                let t = match p {
+                    SP::S(t) | SP::W(t) => *t,
+                };
+                if obs.ret != "none" && !obs.ret.starts_with("skip") && !obs.ret.starts_with("panic") {
+                    if let Some(o) = self.objs.get(t as usize) {
+                        if o.dropped == 0 {
+                            // reviving a *dead* object that needs tracing must make the arena report
+                            // Marking.  Dead is known exactly when nothing mutated since this cycle's
+                            // marking began: then unreachable objects are precisely the unmarked ones.
+                            if obs.phase_before == CPhase::Marked && !was_mutated && !o.leaf && !reach_before.contains(&t) && obs.phase_after != CPhase::Marking {
+                                v("C07", format!("resurrect({p}) of a dead object left the arena {}", obs.phase_after.name()));
+                            }
+                            if !self.resurrected.contains(&t) {
+                                self.resurrected.push(t);
+                            }
+                        }
+                    }
                 }
             }
             Op::Barrier(_) => {
@@ -653,6 +715,9 @@ impl Shadow {
                     v("C04", format!("{} Gc blocks outstanding after arena drop", obs.live_blocks));
                 }
             }
+        }
+        if obs.steps.contains('Z') || obs.phase_after == CPhase::Sleeping || matches!(op, Op::DropArena) {
+            self.resurrected.clear();
         }
         out.extend(keyed);
     }
